@@ -5,9 +5,9 @@ use color_eyre::eyre::{Context, Result};
 use lsp_types::{TextDocumentPositionParams, Url};
 use spl_frontend::{
     ast::{GlobalDeclaration, Identifier, ProcedureDeclaration},
-    table::{GlobalEntry, GlobalTable, LocalTable, SymbolTable},
-    tokens::TokenType,
-    AnalyzedSource, ToRange, ToTextRange,
+    table::{Entry, GlobalEntry, GlobalTable, LocalTable, ProcedureEntry, SymbolTable},
+    tokens::{Token, TokenType},
+    AnalyzedSource, Shiftable, ToRange, ToTextRange,
 };
 use tokio::sync::{mpsc::Sender, oneshot};
 
@@ -52,6 +52,69 @@ impl ToRange for Ident {
     }
 }
 
+/// The declarations, an identifier inside of a procedure declaration can refer to.
+#[derive(Clone, Copy, Debug, PartialEq, Eq)]
+enum Scope {
+    /// The name of the procedure declaration itself.
+    /// This name is not in the scope of the parameters and variables of the declaration,
+    /// so it must not be looked up in the local table.
+    ContextName,
+    /// Inside of a type expression, only those local entries are visible,
+    /// which the table builder had entered before:
+    /// none for the type of a parameter, the parameters and the preceding variables
+    /// for the type of a variable.
+    /// Contains the start of the enclosing variable declaration, relative to the procedure.
+    TypeExpression(usize),
+    /// Everywhere else, all parameters and variables are visible
+    Body,
+}
+
+impl Scope {
+    /// Scope of the identifier token at `index`.
+    /// `tokens` and `index` are relative to the reference of the procedure declaration.
+    fn of_token(pd: &ProcedureDeclaration, tokens: &[Token], index: usize) -> Self {
+        let previous_token = tokens[..index.min(tokens.len())]
+            .iter()
+            .rev()
+            .find(|token| !matches!(token.token_type, TokenType::Comment(_)));
+        if matches!(
+            previous_token.map(|token| &token.token_type),
+            Some(TokenType::Colon | TokenType::Of)
+        ) {
+            let variables_end = pd
+                .variable_declarations
+                .iter()
+                .find(|vd| vd.to_range().shift(vd.offset).contains(&index))
+                .map_or(0, |vd| vd.to_range().shift(vd.offset).start);
+            Self::TypeExpression(variables_end)
+        } else {
+            Self::Body
+        }
+    }
+
+    /// Looks for an entry, first among the visible entries of the local table,
+    /// then, if not found, in the global table.
+    fn lookup<'a>(
+        self,
+        name: &str,
+        procedure: &'a ProcedureEntry,
+        global_table: &'a GlobalTable,
+    ) -> Option<Entry<'a>> {
+        let local_entry = match self {
+            Self::ContextName => return Some(Entry::Procedure(procedure)),
+            // the table builder never looks up `int`
+            Self::TypeExpression(_) if name == "int" => None,
+            Self::TypeExpression(variables_end) => procedure
+                .local_table
+                .lookup(name)
+                .map(Entry::from)
+                .filter(|entry| entry.to_range().end <= variables_end),
+            Self::Body => procedure.local_table.lookup(name).map(Entry::from),
+        };
+        local_entry.or_else(|| global_table.lookup(name).map(Entry::from))
+    }
+}
+
 struct DocumentCursor {
     doc: AnalyzedSource,
     index: usize,
@@ -75,14 +138,35 @@ impl DocumentCursor {
         }
     }
 
-    /// True, if the identifier is the name of the global declaration, that contains the cursor.
-    /// This name is not in the scope of the parameters and variables of the declaration,
-    /// so it must not be looked up in the local table.
-    fn is_context_name(&self, ident: &Ident) -> bool {
-        self.context.as_ref().map_or(false, |entry| {
+    /// Scope of the identifier, if the cursor is inside of a procedure declaration
+    fn scope(&self, ident: &Ident) -> Scope {
+        let is_context_name = self.context.as_ref().map_or(false, |entry| {
             let range = entry.to_range();
             !range.is_empty() && entry.to_text_range(&self.doc.tokens[range]) == ident.range
-        })
+        });
+        if is_context_name {
+            return Scope::ContextName;
+        }
+        self.doc
+            .tokens
+            .iter()
+            .position(|token| token.range == ident.range)
+            .and_then(|index| {
+                self.doc
+                    .ast
+                    .global_declarations
+                    .iter()
+                    .find_map(|gd| match gd.as_ref() {
+                        GlobalDeclaration::Procedure(pd)
+                            if gd.to_range().shift(gd.offset).contains(&index) =>
+                        {
+                            let tokens = &self.doc.tokens[gd.offset..];
+                            Some(Scope::of_token(pd, tokens, index - gd.offset))
+                        }
+                        _ => None,
+                    })
+            })
+            .unwrap_or(Scope::Body)
     }
 }
 
@@ -142,14 +226,21 @@ impl ToSpl for String {
     }
 }
 
+fn get_procedure_entry<'a>(
+    pd: &ProcedureDeclaration,
+    global_table: &'a GlobalTable,
+) -> Option<&'a ProcedureEntry> {
+    if let Some(name) = &pd.name {
+        if let Some(GlobalEntry::Procedure(p)) = global_table.lookup(&name.value) {
+            return Some(p);
+        }
+    }
+    None
+}
+
 fn get_local_table<'a>(
     pd: &ProcedureDeclaration,
     global_table: &'a GlobalTable,
 ) -> Option<&'a LocalTable> {
-    if let Some(name) = &pd.name {
-        if let Some(GlobalEntry::Procedure(p)) = global_table.lookup(&name.value) {
-            return Some(&p.local_table);
-        }
-    }
-    None
+    get_procedure_entry(pd, global_table).map(|p| &p.local_table)
 }
